@@ -111,7 +111,7 @@ class StmtMixin:
                 return [(s, ("raise", r) if is_exc(r) else None) for s, r in res]
             if base.term is not None:
                 raise OutOfSubset("write to an object after it escaped", node)
-            base.attrs = {**base.attrs, name: v}
+            self.oset(st, base, name, v)
             # SymObj is shared between forked states: copy-on-write per state is not modelled, so
             # a write after a fork point would leak; constructors here are straight-line.
             return [(st, None)]
@@ -228,7 +228,7 @@ class StmtMixin:
                 if is_exc(b):
                     out.append((s, ("raise", b)))
                 elif isinstance(b, SymObj):
-                    b.attrs = {**b.attrs, base_node.attr: newval}
+                    self.oset(s, b, base_node.attr, newval)
                     out.append((s, None))
                 else:
                     lb = self.lift(b)
@@ -297,7 +297,24 @@ class StmtMixin:
             if f is not None:
                 self.refine(f, n.test, False)
                 out.extend(self.exec_block(f, n.orelse))
-        return out
+        return self.merge_fallthrough(out)
+
+    def merge_fallthrough(self, results):
+        """Join the fall-through paths of an if (path explosion control); return/raise paths stay apart."""
+        normal = [(s, None) for s, sig in results if sig is None]
+        other = [(s, sig) for s, sig in results if sig is not None]
+        while len(normal) >= 2:
+            merged = None
+            for i in range(len(normal) - 1):
+                m = self.try_merge(normal[i][0], None, normal[i + 1][0], None)
+                if m is not None:
+                    merged = (i, (m[0], None))
+                    break
+            if merged is None:
+                break
+            i, m = merged
+            normal[i:i + 2] = [m]
+        return other + normal
 
     def refine(self, st, test, truth):
         """Static kind refinement after isinstance tests on a local name (dispatch hint only)."""
@@ -469,6 +486,7 @@ class StmtMixin:
         modified = [m for m in modified if m in st.env]
 
         def inv_at(s, k):
+            self.spec_state = s
             sp = SpecEval(self, {**s.env, "_k": mkI(k), "_n": mkI(f"(seq.len {sq})"),
                                  "_seq": Val(f"(v_list {sq})", kind="list")})
             return sp.compile_bool(inv_src)
